@@ -20,7 +20,8 @@ def fresh():
 
 
 def by_history(rng):
-    M = Model(species=['A'], initial_condition_dict={'A': 1})
+    early_D = rng.random() < 0.5          # the rule's target exists from the start, so that the rule is the LAST edit of an initialised model
+    M = Model(species=['A', 'D'] if early_D else ['A'], initial_condition_dict={'A': 1})
     for k in PAR:
         M.create_parameter(k, rng.uniform(0.1, 2))
     steps = list(range(len(RX)))
@@ -38,7 +39,10 @@ def by_history(rng):
                 py_simulate_model(T, Model=M, stochastic=rng.random() < 0.5, delay=rng.random() < 0.3)
             except Exception:
                 pass
-    M._add_species('D')
+    if early_D:
+        M.py_initialize()
+    else:
+        M._add_species('D')
     M.create_rule(RULE[0], dict(RULE[1]))
     for k, v in PAR.items():
         M.set_parameter(k, v)
@@ -67,7 +71,9 @@ def main():
                     return dict(reproduced=True, call='simulate %r' % mode, observed='model values changed by the simulation', expected='unchanged')
             n += 1
             if not (np.array_equal(outs[0], outs[2]) and np.allclose(outs[0], outs[1], rtol=0, atol=0 if mode['stochastic'] else 1e-9)):
-                return dict(reproduced=True, call='same definition, different history, mode %r' % mode, observed=outs[1][:, -1].tolist(), expected=outs[0][:, -1].tolist())
+                j = int(np.argmax((outs[0] != outs[1]).any(axis=0))) if outs[0].shape == outs[1].shape else 0
+                return dict(reproduced=True, call='same definition, different history, mode %r' % mode, what='species A, B, C, D in row %d (first differing row)' % j,
+                            observed=outs[1][:, j].tolist(), expected=outs[0][:, j].tolist())
     # a reused interface follows later set_parameter calls
     M = fresh()
     itf = ModelCSimInterface(M)
